@@ -317,6 +317,24 @@ func init() {
 			}
 		}
 		counters["c16:enc:flips"] += flips
+		// every value of byte 31 (the last byte of the ephemeral key) on a blob whose ephemeral key ends in 0x00
+		// — about one encryption in 128 — so that a guard that only looks at the magnitude of that byte is seen
+		for try := 0; try < 1500; try++ {
+			b2, err := encrypted_leaseset.EncryptInnerLeaseSet2(&v, ck, pubArg)
+			if err != nil || len(b2) < 32 || b2[31] != 0 {
+				continue
+			}
+			count("c16:enc:eph-last-byte-zero-cases")
+			for val := 1; val < 256; val++ {
+				m := append([]byte{}, b2...)
+				m[31] = byte(val)
+				if out, err := c16Decrypt(m, cookie, privArg); err == nil {
+					fails = append(fails, fail("C16", "tamper:eph-last-byte", "ephemeral key ending in 0x00: replacing byte 31 by 0x%02x still decrypts (same bytes: %v)", val, bytes.Equal(out, want)))
+					break
+				}
+			}
+			break
+		}
 		// resized blobs are outside the sentence ("modified byte"): recorded, not judged
 		if len(blob) > 61 {
 			if _, err := c16Decrypt(blob[:len(blob)-1], cookie, privArg); err == nil {
@@ -364,6 +382,15 @@ func init() {
 		}
 		if len(secret) < 32 && r1.ok {
 			fails = append(fails, fail("C16", "blind:short-secret-accepted", "a %d-byte secret is accepted", len(secret)))
+		}
+		// "a deterministic function of destination, secret and UTC calendar day": every instant of the same UTC
+		// day gives the same result, down to the last nanosecond before midnight
+		for _, ns := range []int64{1, 499999999, 500000000, 999999999} {
+			tn := time.Unix(s, ns).In(time.FixedZone("z", off))
+			if !c16Blind(d, secret, tn).same(r1) {
+				fails = append(fails, fail("C16", "blind:sub-second-dependent", "second %d plus %d ns (same UTC day) gives a different result than the whole second", s, ns))
+				break
+			}
 		}
 		// the Location must not matter
 		for _, o := range []int{0, 14 * 3600, -12 * 3600, off + 3600} {
